@@ -66,6 +66,7 @@ MARK_OBLIGATIONS = [
     "JanetModel.Props.C06.current_mark_walks",
     "JanetModel.Props.C06.mark_visits_exactly_queued",
     "JanetModel.Props.C06.take_never_dangling",
+    "JanetModel.Props.C06.waiting_fiber_never_freed",
     "JanetModel.Props.C06.queued_value_survives_collection",
     "JanetModel.Props.C06.short_walk_hands_out_freed_value",
 ]
@@ -105,28 +106,42 @@ def run_harness_chunk(hx, items):
 
 
 def run_harness(hx, items):
-    """parallel over NPROC processes; a chunk whose process crashed is bisected to the program"""
+    """parallel over NPROC processes.  A chunk whose process ended early is continued: the program it stopped at is run alone
+    (its own crash report), the programs after it are run as a new chunk; after MAX_CRASHES_PER_CHUNK crashes the rest of the chunk
+    is run one by one up to a budget (a tree on which most programs crash is reported from the first few, not explored)."""
+    MAX_CRASHES_PER_CHUNK, SINGLE_BUDGET = 6, 60
     chunks = [items[i::NPROC] for i in range(NPROC)]
     results, crashes = {}, []
+
+    def work(chunk):
+        res_all, crash_all, ncrash = {}, [], 0
+        while chunk:
+            rc, res, err = run_harness_chunk(hx, chunk)
+            res_all.update(res)
+            missing = [it for it in chunk if it[0] not in res]
+            if rc == 0 and not missing:
+                break
+            first = missing[0] if missing else chunk[-1]
+            rc1, res1, err1 = run_harness_chunk(hx, [first])
+            if rc is None and rc1 == 0 and first[0] in res1:
+                # the chunk's process hit the harness timeout (an overloaded machine), the program itself runs: not a result
+                TIMEOUTS.append(first[0])
+                res_all.update(res1)
+            else:
+                ncrash += 1
+                res_all.update(res1)
+                crash_all.append({"program": first[2], "seed": first[1], "rc": rc1 if rc1 != 0 else rc,
+                                  "stderr": sanitizer_report(err1 if rc1 != 0 else err), "stdout_tail": LAST_STDOUT_TAIL.get(first[0], "")})
+            chunk = missing[1:]
+            if ncrash >= MAX_CRASHES_PER_CHUNK:
+                for it in chunk[:SINGLE_BUDGET]:
+                    res_all.update(run_harness_chunk(hx, [it])[1])
+                break
+        return res_all, crash_all
     with cf.ThreadPoolExecutor(NPROC) as ex:
-        for chunk, (rc, res, err) in zip(chunks, ex.map(lambda c: run_harness_chunk(hx, c) if c else (0, {}, ""), chunks)):
+        for res, cr in ex.map(work, chunks):
             results.update(res)
-            if rc != 0 or len(res) != len(chunk):
-                missing = [it for it in chunk if it[0] not in res]
-                first = missing[0] if missing else chunk[-1]
-                rc1, res1, err1 = run_harness_chunk(hx, [first])
-                if rc is None and rc1 == 0 and first[0] in res1:
-                    # the chunk's process hit the harness timeout (an overloaded machine), the program itself runs: not a result
-                    TIMEOUTS.append(first[0])
-                    results.update(res1)
-                    for it in missing[1:]:
-                        results.update(run_harness_chunk(hx, [it])[1])
-                    continue
-                crashes.append({"program": first[2], "seed": first[1], "rc": rc1 if rc1 != 0 else rc, "stderr": sanitizer_report(err1 if rc1 != 0 else err),
-                                "stdout_tail": LAST_STDOUT_TAIL.get(first[0], "")})
-                for it in missing[1:]:
-                    rc2, res2, err2 = run_harness_chunk(hx, [it])
-                    results.update(res2)
+            crashes += cr
     return results, crashes
 
 
